@@ -4,6 +4,8 @@
 
       activeBegin   the read-loop goroutine fires the active event            (once, first thing)
       activeEnd     … it returned; `done()` releases serveChannel's barrier
+      activePanic   … or a handler panicked: the barrier is released all the same and the panic is owed to the exception handlers
+      exception     the exception handlers receive what a panicking active / read handler threw (dropped if the channel is closed by then)
       handOut       serveChannel returns: Connect / the accept loop hands the channel out   (waits for the barrier)
       readBegin     the loop found its context live and fires a read            (one at a time, after active)
       readEnd ok    … the read handlers returned (ok) or panicked (failed transport read, handler error)
@@ -29,10 +31,11 @@ structure St where
   inactives : List Nat := []           -- errors carried by delivered inactive events
   winnerReturned : Bool := false
   loopExited : Bool := false
+  pendingExc : Bool := false           -- a handler panicked and the exception has not been routed yet
   deriving Repr, DecidableEq
 
 inductive Ev where
-  | activeBegin | activeEnd | handOut
+  | activeBegin | activeEnd | activePanic | exception | handOut
   | readBegin | readEnd (ok : Bool)
   | closeWin (e : Nat) | closeTr | closeCancel | inactive (e : Nat) | closeRet (winner : Bool)
   | loopExit
@@ -41,10 +44,13 @@ inductive Ev where
 def step (s : St) : Ev → Option St
   | .activeBegin => if s.activeBegun = 0 ∧ !s.loopExited then some { s with activeBegun := 1 } else none
   | .activeEnd => if s.activeBegun = 1 ∧ !s.activeEnded then some { s with activeEnded := true } else none
+  | .activePanic => if s.activeBegun = 1 ∧ !s.activeEnded then some { s with activeEnded := true, pendingExc := true } else none
+  | .exception => if s.pendingExc then some { s with pendingExc := false } else none
   | .handOut => if s.activeEnded ∧ !s.handedOut then some { s with handedOut := true } else none
   | .readBegin =>
-    if s.activeEnded ∧ !s.inRead ∧ !s.loopExited then some { s with inRead := true, readsBegun := s.readsBegun + 1 } else none
-  | .readEnd _ => if s.inRead then some { s with inRead := false, readsEnded := s.readsEnded + 1 } else none
+    if s.activeEnded ∧ !s.inRead ∧ !s.loopExited ∧ (!s.pendingExc ∨ s.winner.isSome) then
+      some { s with inRead := true, readsBegun := s.readsBegun + 1, pendingExc := false } else none
+  | .readEnd ok => if s.inRead then some { s with inRead := false, readsEnded := s.readsEnded + 1, pendingExc := !ok } else none
   | .closeWin e => if s.winner.isNone then some { s with winner := some e } else none
   | .closeTr => if s.winner.isSome ∧ s.trCloses = 0 ∧ !s.winnerReturned then some { s with trCloses := 1 } else none
   | .closeCancel => if s.trCloses = 1 ∧ !s.ctxDone ∧ !s.winnerReturned then some { s with ctxDone := true } else none
